@@ -18,6 +18,8 @@ STORAGE_CATS = ('convert-from-unit', 'from-storage', 'storage-label', 'storage-c
 
 
 def run(ctx):
+    from .configtime import derived_values as _derived
+    _derived(ctx, 'C12.R3', ('Container', 'Unit', 'Substance'))
     model = ctx.model
     from . import unitspec as _us
     _us.api_verified(ctx, 'C12.R1')
@@ -110,7 +112,7 @@ def run(ctx):
     feasibility_gates(ctx, 'C12.R4')
     # the molarity of the stock is computed from its stored volume: every writer of contents keeps it current
     from .c10 import pairing as _pairing
-    _pairing(ctx, 'C12.R3')
+    _pairing(ctx, 'C12.R3', derived=False)
     # the new solution is an unlimited vessel: a capacity copied from the source or the solvent refuses requests the
     # stock can meet
     for c, s_, b in ff.calls:
